@@ -11,8 +11,32 @@ vars == <<rows, hist, closed>>
 Meta == {<<>>, <<7>>, <<0, 255, 10>>}
 MutRow(p, m) == [site |-> 0, node |-> 1, derived_state |-> <<65>>, parent |-> p, metadata |-> m, time |-> 2]
 IndRow(ps, m) == [flags |-> 1, location |-> <<>>, parents |-> ps, metadata |-> m]
+\* the six classes without self references: rows whose ragged columns have lengths 0 / 1 / 3 and whose scalars differ
+Strs == {<<>>, <<65>>, <<67, 71, 84>>}
+OtherRows ==
+    CASE Cls = "nodes" -> {[flags |-> f, time |-> t, population |-> p, individual |-> p, metadata |-> m] : f \in {0, 1}, t \in {0, 2}, p \in {-1, 1}, m \in Meta}
+      [] Cls = "edges" -> {[left |-> l, right |-> 4, parent |-> 3, child |-> c, metadata |-> m] : l \in {0, 1}, c \in {0, 2}, m \in Meta}
+      [] Cls = "migrations" -> {[left |-> 0, right |-> 4, node |-> u, source |-> 0, dest |-> 1, time |-> t, metadata |-> m] : u \in {0, 1}, t \in {1, 3}, m \in Meta}
+      [] Cls = "sites" -> {[position |-> x, ancestral_state |-> a, metadata |-> m] : x \in {0, 5}, a \in Strs, m \in Meta}
+      [] Cls = "populations" -> {[metadata |-> m] : m \in Meta}
+      [] Cls = "provenances" -> {[timestamp |-> a, record |-> b] : a \in Strs, b \in Strs}
+      [] OTHER -> {}
 RowChoices(n) == IF Cls = "mutations" THEN {MutRow(p, m) : p \in (-1)..(n - 1), m \in {<<>>, <<7>>}}
-                 ELSE {IndRow(ps, m) : ps \in {<<>>} \cup {<<p>> : p \in (-1)..(n - 1)} \cup {<<p, -1>> : p \in 0..(n - 1)} \cup {<<-1, p>> : p \in 0..(n - 1)}, m \in {<<>>, <<7>>}}
+                 ELSE IF Cls = "individuals" THEN
+                      {IndRow(ps, m) : ps \in {<<>>} \cup {<<p>> : p \in (-1)..(n - 1)} \cup {<<p, -1>> : p \in 0..(n - 1)} \cup {<<-1, p>> : p \in 0..(n - 1)}, m \in {<<>>, <<7>>}}
+                 ELSE OtherRows
+\* rows offered to the bulk operations (a few per class, so that pairs stay enumerable)
+M2 == {<<>>, <<0, 255, 10>>}
+BulkRows ==
+    CASE Cls = "nodes" -> {[flags |-> 1, time |-> 2, population |-> p, individual |-> -1, metadata |-> m] : p \in {-1, 1}, m \in M2}
+      [] Cls = "edges" -> {[left |-> 0, right |-> 4, parent |-> 3, child |-> c, metadata |-> m] : c \in {0, 2}, m \in M2}
+      [] Cls = "migrations" -> {[left |-> 0, right |-> 4, node |-> u, source |-> 0, dest |-> 1, time |-> 1, metadata |-> m] : u \in {0, 1}, m \in M2}
+      [] Cls = "sites" -> {[position |-> 5, ancestral_state |-> a, metadata |-> m] : a \in {<<>>, <<67, 71, 84>>}, m \in {<<>>, <<7>>}}
+      [] Cls = "populations" -> {[metadata |-> m] : m \in Meta}
+      [] Cls = "provenances" -> {[timestamp |-> a, record |-> b] : a \in {<<>>, <<65>>}, b \in {<<>>, <<67, 71, 84>>}}
+      [] OTHER -> {}
+SelfRef == Cls \in {"mutations", "individuals"}
+HasMeta == Cls # "provenances"
 Masks(n) == [1..n -> {0, 1}]
 Closed(rs) == \A i \in 1..Len(rs) : RowRefsOK(Cls, [q \in 1..Len(rs) |-> 1], rs[i])
 Events ==
@@ -20,7 +44,14 @@ Events ==
     \cup {[op |-> "setitem", j |-> jj, row |-> r] : jj \in (-Len(rows))..Len(rows), r \in RowChoices(Len(rows))}
     \cup {[op |-> "truncate", n |-> n] : n \in 0..(Len(rows) + 1)}
     \cup {[op |-> "keep_rows", keep |-> m] : m \in Masks(Len(rows))}
-    \cup {[op |-> "clear"], [op |-> "drop_metadata"], [op |-> "copy"]}
+    \cup {[op |-> "clear"], [op |-> "copy"]} \cup (IF HasMeta THEN {[op |-> "drop_metadata"]} ELSE {})
+    \* reads and bulk operations are part of the behaviours of the classes added later (the first two keep their state space)
+    \cup (IF SelfRef THEN {} ELSE
+           {[op |-> "getitem", j |-> jj] : jj \in (-Len(rows) - 1)..Len(rows)}
+           \cup {[op |-> "mask", mask |-> m] : m \in Masks(Len(rows))}
+           \cup {[op |-> "ids", ids |-> q] : q \in {<<>>} \cup {<<a>> : a \in (-1)..Len(rows)} \cup {<<a, b>> : a \in 0..(Len(rows) - 1), b \in 0..(Len(rows) - 1)}}
+           \cup {[op |-> o, rows |-> q] : o \in {"set_columns", "append_columns"},
+                                          q \in {<<>>} \cup {<<r>> : r \in BulkRows} \cup {<<r, r2>> : r \in BulkRows, r2 \in BulkRows}})
     \cup {[op |-> "slice", a |-> a, b |-> b] : a \in 0..Len(rows), b \in 0..Len(rows)}
 Init == rows = <<>> /\ hist = <<>> /\ closed = TRUE
 Next == /\ Len(hist) < Depth
